@@ -11,6 +11,10 @@ use std::time::Duration;
 
 pub struct Idler {
     pub max_idles: usize,
+    /// also offer the handshake-kind noise packet
+    pub hs_noise: bool,
+    /// the application may let the earliest timer fire before it submits its next request
+    pub wait: bool,
 }
 
 impl Driver for Idler {
@@ -18,6 +22,9 @@ impl Driver for Idler {
         let quiet = w.inflight.is_empty() && w.nodes.iter().all(|n| n.way_queries.is_empty() && n.inbound.is_empty()) && w.earliest_deadline().is_none();
         let idles = w.scratch.iter().filter(|(k, _)| k == "idle").count();
         let mut out = vec![];
+        if self.wait && w.inflight.is_empty() && w.nodes.iter().all(|n| n.way_queries.is_empty() && n.inbound.is_empty()) && w.earliest_deadline().is_some() && w.submitted.iter().any(|s| !*s) {
+            out.push((Ev::Ext(50), 0));
+        }
         if quiet && idles < self.max_idles && w.submitted.iter().any(|s| *s) && w.submitted.iter().any(|s| !*s) {
             out.push((Ev::Ext(99), 0));
             out.push((Ev::Ext(101), 0));
@@ -28,22 +35,37 @@ impl Driver for Idler {
         let noises = w.scratch.iter().filter(|(k, _)| k == "noise").count();
         if quiet && idles > 0 && noises < idles && w.snap(0).map(|s| !s.sessions.is_empty()).unwrap_or(false) {
             out.push((Ev::Ext(7), 0));
+            // the same with a handshake-kind packet that answers no challenge
+            if self.hs_noise {
+                out.push((Ev::Ext(8), 0));
+            }
         }
         out
     }
     fn ext_step<'a>(&'a self, w: &'a mut World, code: u32) -> std::pin::Pin<Box<dyn std::future::Future<Output = ()> + 'a>> {
         Box::pin(async move {
-            if code == 7 {
+            if code == 50 {
+                if let Some(d) = w.earliest_deadline() {
+                    w.advance_through(d).await;
+                }
+                return;
+            }
+            if code == 7 || code == 8 {
                 w.scratch.push(("noise".into(), vec![]));
                 // the most recently used session's peer
                 if let Some(peer) = w.snap(0).and_then(|s| s.sessions.last().map(|x| x.addr.clone())) {
                     let mut nonce = [0u8; 12];
                     nonce[0] = 0xEE;
                     nonce[11] = w.scratch.len() as u8;
-                    let p = discv5::verif::VPacket { iv: 77, message_nonce: nonce, kind: discv5::packet::PacketKind::Message { src_id: peer.node_id }, message: vec![0x55; 5] };
+                    let kind = if code == 7 {
+                        discv5::packet::PacketKind::Message { src_id: peer.node_id }
+                    } else {
+                        discv5::packet::PacketKind::Handshake { src_id: peer.node_id, id_nonce_sig: vec![0x11; 64], ephem_pubkey: vec![0x02; 33], enr_record: None }
+                    };
+                    let p = discv5::verif::VPacket { iv: 77, message_nonce: nonce, kind, message: vec![0x55; 5] };
                     let bytes = p.encode(&w.nodes[0].id);
                     w.log_mark = w.log.len();
-                    w.deliver_raw(0, peer.socket_addr, &bytes, 0, nonce, -1).await;
+                    w.deliver_raw(0, peer.socket_addr, &bytes, if code == 7 { 0 } else { 2 }, nonce, -1).await;
                 }
                 return;
             }
@@ -74,6 +96,13 @@ pub fn configs(thorough: bool) -> Vec<(String, HCfg)> {
     crossing.session_timeout = Some(Duration::from_millis(1500));
     crossing.free_app_timing = true;
     out.push(("crossing-late-answer".to_string(), crossing));
+    // retransmissions next to a session timeout of the order of the request lifetime: a
+    // retransmission re-sends the stored datagram, it is no use of the session
+    let mut resend = quiet(2, vec![req(0, 1, Body::Ping), req(0, 1, Body::Talk), req(0, 1, Body::Ping)], None);
+    resend.retries = 2;
+    resend.session_timeout = Some(Duration::from_millis(2500));
+    resend.allow_drop = true;
+    out.push(("retries2-short-session".to_string(), resend));
     if thorough {
         out.push(("expiry-three".to_string(), quiet(3, vec![req(0, 1, Body::Ping), req(2, 0, Body::Ping), req(0, 1, Body::Talk), req(0, 2, Body::Talk), req(1, 0, Body::Find(2))], None)));
         out.push(("capacity-2-mixed".to_string(), quiet(4, vec![req(1, 0, Body::Ping), req(0, 2, Body::Ping), req(3, 0, Body::Ping), req(0, 1, Body::Talk), req(0, 3, Body::Talk)], Some(2))));
@@ -90,7 +119,7 @@ pub fn regression_holds(payload: &serde_json::Value) -> bool {
         None => return true,
     };
     let monitors = Monitors { c03: false, c04: false, c13: false, c15: true, c19: false, c20: false };
-    rt::run(run_history_with(&cfg, monitors, &hist, true, &Idler { max_idles: 3 })).violation.is_none()
+    rt::run(run_history_with(&cfg, monitors, &hist, true, &Idler { max_idles: 3, hs_noise: true, wait: true })).violation.is_none()
 }
 
 pub fn replay(payload: &serde_json::Value) {
@@ -102,7 +131,7 @@ pub fn replay(payload: &serde_json::Value) {
         None => mc::machinery(&format!("unknown configuration {name}")),
     };
     let monitors = Monitors { c03: false, c04: false, c13: false, c15: true, c19: false, c20: false };
-    rt::run(crate::hsim::replay_verbose(&cfg, monitors, &hist, &Idler { max_idles: 3 }));
+    rt::run(crate::hsim::replay_verbose(&cfg, monitors, &hist, &Idler { max_idles: 3, hs_noise: true, wait: true }));
 }
 
 pub fn run() {
@@ -121,7 +150,7 @@ pub fn run() {
     let mut found: Vec<mc::Violation> = lru.violations.clone();
     // handler part
     let monitors = Monitors { c03: false, c04: false, c13: false, c15: true, c19: false, c20: false };
-    let d = Idler { max_idles: if thorough { 3 } else { 2 } };
+    let max_idles = if thorough { 3 } else { 2 };
     let cfgs = configs(thorough);
     let budget = mc::budget(thorough, 40.0, 0.7);
     let start = clock::wall();
@@ -130,6 +159,7 @@ pub fn run() {
     let mut counters: BTreeMap<&'static str, u64> = BTreeMap::new();
     let mut exhaustive = lru.exhaustive;
     let mut caps = vec![];
+    let mut per_world = vec![];
     for (name, cfg) in &cfgs {
         let remaining = (budget - (clock::wall() - start)).min(per * 2.0);
         if remaining < 1.0 {
@@ -137,18 +167,23 @@ pub fn run() {
             caps.push("wall budget".to_string());
             break;
         }
-        let limits = Limits { max_budget: 0, max_depth: 80, max_states: 2_000_000, wall_s: remaining };
+        let limits = Limits { max_budget: if cfg.allow_drop { 2 } else { 0 }, max_depth: 80, max_states: 2_000_000, wall_s: remaining };
         let mut vio = vec![];
         let mut smp = vec![];
+        let w0 = clock::wall();
         let m = monitors.clone();
         let mut cfg = cfg.clone();
         cfg.focus = vec!["C15".to_string()];
         let cfg = &cfg;
+        // quick: the handshake-kind noise packet in the two-node world and the capacity-2 world
+        // the retransmission world has free application timing and timers instead of idle periods
+        let d = Idler { max_idles: if name == "retries2-short-session" { 0 } else { max_idles }, hs_noise: thorough || name == "expiry-two" || name == "capacity-2", wait: name == "retries2-short-session" };
         let stats = mc::explore(&limits, |h: &[Ev]| rt::run(run_history_with(cfg, m.clone(), h, true, &d)), |v, _| vio.push(v), |h, o| {
             if o.enabled.is_empty() {
                 smp.push(format!("{:?}", h))
             }
         });
+        per_world.push(json!({"world":name,"states":stats.states,"transitions":stats.transitions,"wall_s":((clock::wall()-w0)*10.0).round()/10.0}));
         states += stats.states;
         trans += stats.transitions;
         execs += stats.executions;
@@ -179,6 +214,7 @@ pub fn run() {
     rep.set("evaluations", execs);
     rep.set("distinct_nontrivial", states);
     rep.set("exhaustive", exhaustive);
+    rep.set("handler_worlds", json!(per_world));
     if !caps.is_empty() {
         rep.set("caps", json!(caps));
     }
